@@ -112,6 +112,14 @@ def run_impl(case):
                         pobj.x, pobj.y = spec["x"], spec["y"]
                 else:
                     ec = EventCharacteristics(mk_particles(case["particles"], case))
+                for bn, bm in case.get("before", []):
+                    # the SAME object was asked for other (harmonic, radial power) pairs on the same data first - the answer to
+                    # the final question is that of its own n and m, whatever was asked before (a default m and an explicit m
+                    # with the same number are different questions)
+                    try:
+                        ec.eccentricity(bn, bm, case["weight"])
+                    except Exception:
+                        pass
                 v = ec.eccentricity(harm(case, "n"), case["m"], case["weight"]) if not case.get("direct") else \
                     ec.eccentricity_from_particles(harm(case, "n"), case["m"], case["weight"])
             else:
@@ -146,6 +154,11 @@ def run_impl(case):
                         pass
                 else:
                     ec = EventCharacteristics(mk_lattice(case))
+                for bn, bm in case.get("before", []):
+                    try:
+                        ec.eccentricity(bn, bm)
+                    except Exception:
+                        pass
                 v = ec.eccentricity(harm(case, "hn"), case["m"])
         except Exception as e:
             return {"status": "err", "err": errname(e)}
@@ -268,6 +281,17 @@ def gen_point(rng, exact):
     return (rng.choice([-2.5, -1.0, 0.5, 1.0, 1.5, 3.0, 0.75]), rng.choice([-2.0, -0.5, 0.25, 1.0, 2.0, 1.25]))
 
 
+def gen_before(rng, n, m):
+    """earlier questions put to the same object: default-m and explicit-m calls whose numbers coincide with the final call's"""
+    pool = [(1, None), (2, None), (3, None), (n, None), (rng.choice([1, 2, 3, 4]), 1), (rng.choice([1, 2, 3, 4]), 2),
+            (rng.choice([1, 2, 3]), 3)]
+    if isinstance(m, int) and m >= 1:
+        pool += [(m, None), (m, None), (n if isinstance(n, int) and n >= 1 else 2, m + 1)]
+    if m is None and isinstance(n, int) and n >= 1:
+        pool += [(rng.choice([2, 3, 4]), n), (rng.choice([2, 3, 4]), n), (n, 3 if n == 1 else n)]
+    return [list(rng.choice(pool)) for _ in range(rng.choice([1, 1, 2, 3]))]
+
+
 def gen_particles(rng, small=False):
     exact = rng.random() < 0.75
     k = rng.choice([1, 2, 3, 3, 4, 5, 6] if not small else [1, 2, 3])
@@ -290,6 +314,8 @@ def gen_particles(rng, small=False):
         case["container"] = "ndarray"
     if rng.random() < 0.15:
         case["n_as"] = "np"
+    if rng.random() < 0.3:
+        case["before"] = gen_before(rng, case["n"], case["m"])
     r = rng.random()
     if r < 0.03:
         case["n"] = rng.choice([0, -1])
@@ -320,8 +346,10 @@ def gen_lattice(rng):
     r = rng.random()
     if r < 0.25:
         case["late_fill"] = rng.choice(["zeros", "other"])
-    elif r < 0.45:
+    elif r < 0.35:
         case["twice"] = rng.choice([1, 2, 3, 4])
+    elif r < 0.45:
+        case["before"] = gen_before(rng, case["hn"], case["m"])
     elif r < 0.7:
         if rng.random() < 0.8:
             ext2 = []
